@@ -1,31 +1,31 @@
 (* props/C04.v - property C04: Merkle inclusion-proof verification is sound, exact and total.
    Only statements, each closed by `exact`, each followed by Print Assumptions.
-   Model: model/Merkle.v (mt_leaf fixed: fixed = false is the pinned tree, fixed = true the anticipated
-   repair of `first_leaf_index + index`).  Specification: spec/MerkleSpec.v. *)
+   Model: model/Merkle.v (mt_leaf fixed: fixed = true is the current tree, after repair b29c426 of
+   `first_leaf_index + index`; fixed = false the originally pinned tree).  Specification: spec/MerkleSpec.v. *)
 From Coq Require Import ZArith Bool List.
 From TF Require Import Merkle MerkleSpec MerkleProofs.
 Import ListNotations.
 Open Scope Z_scope.
 
-(* ---- accessors: exact for every usize index in both build modes -- after the repair *)
-Theorem C04_accessors_total_v1 : forall (D : Type) (H : D -> D -> D) (dflt : D) (leafs : list D),
+(* ---- accessors: exact for every usize index in both build modes (current tree) *)
+Theorem C04_accessors_total : forall (D : Type) (H : D -> D -> D) (dflt : D) (leafs : list D),
   is_pow2 (zlen leafs) = true -> zlen leafs <= 2 ^ 63 ->
   forall (m : mmode) (i : Z), 0 <= i ->
-  mt_leaf D true m (spec_tree D H dflt leafs) i =
+  mt_leaf D CUR_LEAF_FIXED m (spec_tree D H dflt leafs) i =
     Ok (if i <? zlen leafs then Some (znth D dflt leafs i) else None).
 Proof. exact honest_leaf_fixed. Qed.
-Print Assumptions C04_accessors_total_v1.
+Print Assumptions C04_accessors_total.
 
-Theorem C04_indexed_leafs_total_v1 : forall (D : Type) (H : D -> D -> D) (dflt : D) (leafs : list D),
+Theorem C04_indexed_leafs_total : forall (D : Type) (H : D -> D -> D) (dflt : D) (leafs : list D),
   is_pow2 (zlen leafs) = true -> zlen leafs <= 2 ^ 63 ->
   forall (m : mmode) (idxs : list Z), (forall i, In i idxs -> 0 <= i) ->
-  mt_indexed_leafs D true m (spec_tree D H dflt leafs) idxs =
+  mt_indexed_leafs D CUR_LEAF_FIXED m (spec_tree D H dflt leafs) idxs =
     if forallb (fun i => i <? zlen leafs) idxs
     then Ok (map (fun i => (i, znth D dflt leafs i)) idxs) else Err.
 Proof. exact honest_indexed_leafs_fixed. Qed.
-Print Assumptions C04_indexed_leafs_total_v1.
+Print Assumptions C04_indexed_leafs_total.
 
-(* on the pinned tree the same statement holds only while first_leaf + i does not wrap *)
+(* history: before b29c426 the same statement held only while first_leaf + i does not wrap *)
 Theorem C04_accessors_v0_nowrap : forall (D : Type) (H : D -> D -> D) (dflt : D) (leafs : list D),
   is_pow2 (zlen leafs) = true ->
   forall (m : mmode) (i : Z), 0 <= i -> zlen leafs + i < USZ ->
@@ -34,8 +34,8 @@ Theorem C04_accessors_v0_nowrap : forall (D : Type) (H : D -> D -> D) (dflt : D)
 Proof. exact honest_leaf_v0_nowrap. Qed.
 Print Assumptions C04_accessors_v0_nowrap.
 
-(* REFUTED on the pinned tree (finding key merkle-leaf-index-wrap): in release mode leaf(2^64 - 7) of an
-   8-leaf tree is the ROOT; in checked mode the same call panics *)
+(* history: REFUTED for the variant before b29c426 (merkle-leaf-index-wrap): in release mode leaf(2^64 - 7)
+   of an 8-leaf tree was the ROOT; in checked mode the same call panicked *)
 Theorem C04_accessors_total_v0_refuted :
   exists (D : Type) (H : D -> D -> D) (dflt : D) (leafs : list D) (m : mmode) (i : Z),
     is_pow2 (zlen leafs) = true /\ zlen leafs <= 2 ^ 63 /\ 0 <= i < 2 ^ 64 /\
@@ -60,7 +60,7 @@ Theorem C04_accessors_mode_dependent_v0 :
 Proof. exact accessors_mode_dependent_v0. Qed.
 Print Assumptions C04_accessors_mode_dependent_v0.
 
-(* which variant the oracle runs as "the current /repo": flips to true with the repair *)
-Theorem C04_model_variant : CUR_LEAF_FIXED = false.
-Proof. exact (eq_refl false). Qed.
+(* which variant the oracle runs as "the current /repo" *)
+Theorem C04_model_variant : CUR_LEAF_FIXED = true.
+Proof. exact (eq_refl true). Qed.
 Print Assumptions C04_model_variant.
